@@ -301,8 +301,11 @@ class StmtMixin:
         names |= set(spec.get('modifies', []))
         alt = self.choose(2)
         # havoc
+        types = spec.get('types', {})
         for nm in sorted(names):
-            if nm in fr.env:
+            if nm in types:
+                fr.env[nm] = self.sym(types[nm], self.fresh('hv.' + nm), record=False)
+            elif nm in fr.env:
                 fr.env[nm] = self.havoc_like(fr.env[nm], nm)
         for (on, fld) in sorted(fields):
             o = fr.env.get(on)
